@@ -44,9 +44,15 @@ func (a *LabelFormatPlanner) Process(ctx *shared.PlannerContext,
 
 	return a.WrapProcess(ctx, in, GenericPlannerOps{
 		OnEntry: func(entry *shared.LogEntry) error {
+			if entry.Err != nil || entry.Labels == nil {
+				// the io.EOF marker (and error entries) carry no label map
+				return nil
+			}
 			for _, fn := range labelFns {
 				entry.Labels = fn(entry.Labels)
 			}
+			// the label set changed: so did the identity of the series
+			entry.Fingerprint = fingerprint(entry.Labels)
 			return nil
 		},
 		OnAfterEntriesSlice: func(entries []shared.LogEntry, c chan []shared.LogEntry) error {
